@@ -217,6 +217,9 @@ fn closure_body(r: &R, c: &syn::ExprClosure) -> String {
 }
 
 pub fn rw_chain(r: &R, e: &Expr) -> Option<String> {
+    if r.opts.has_rw("keep_iter") {
+        return None; // Kani compiles the real iterator code: no R2
+    }
     let mc = match e {
         Expr::MethodCall(mc) => mc,
         _ => return None,
@@ -398,18 +401,33 @@ pub fn rw_chain(r: &R, e: &Expr) -> Option<String> {
                 r.err("fold closure arity");
                 return None;
             }
-            let acc = match &cl.inputs[0] {
-                Pat::Ident(pi) => pi.ident.to_string(),
+            // accumulator: an identifier, or a tuple of identifiers (then the init must be a tuple literal)
+            let accs: Vec<String> = match &cl.inputs[0] {
+                Pat::Ident(pi) => vec![pi.ident.to_string()],
+                Pat::Tuple(pt) if pt.elems.iter().all(|p| matches!(p, Pat::Ident(_))) => pt.elems.iter().map(|p| if let Pat::Ident(pi) = p { pi.ident.to_string() } else { String::new() }).collect(),
                 _ => {
-                    r.err("fold accumulator must be an identifier pattern");
+                    r.err("fold accumulator must be an identifier or a tuple of identifiers");
                     return None;
                 }
             };
             let mut b = pre.clone();
             bind(r, &cl.inputs[1], &cur, copy, &mut b);
-            let init = r.expr(tc.args[0]);
             let aty = spec.opts.get("rty").map(|t| format!(": {}", t)).unwrap_or_default();
-            s.push_str(&format!("    let mut {}{} = {};\n", acc, aty, init));
+            if accs.len() == 1 {
+                let init = r.expr(tc.args[0]);
+                s.push_str(&format!("    let mut {}{} = {};\n", accs[0], aty, init));
+            } else {
+                let inits: Vec<String> = match tc.args[0] {
+                    Expr::Tuple(t) if t.elems.len() == accs.len() => t.elems.iter().map(|e| r.expr(e)).collect(),
+                    _ => {
+                        r.err("fold with a tuple accumulator needs a tuple literal as initial value");
+                        return None;
+                    }
+                };
+                for (a, i0) in accs.iter().zip(inits.iter()) {
+                    s.push_str(&format!("    let mut {} = {};\n", a, i0));
+                }
+            }
             s.push_str(&format!(
                 "    {attr}\n    while {i} < {n}\n        invariant {auto},\n{inv}\n        decreases {n} - {i},\n    {{\n",
                 attr = loop_attr, i = i, n = n, auto = auto_inv, inv = inv_user
@@ -418,8 +436,17 @@ pub fn rw_chain(r: &R, e: &Expr) -> Option<String> {
                 s.push_str(&format!("        {}\n", l));
             }
             let body = closure_body(r, cl);
-            let body = if guards.is_empty() { body } else { format!("if ({}) {{ {} }} else {{ {} }}", guards.join(") && ("), body, acc) };
-            s.push_str(&format!("        {} = {};\n        {} = {} + 1;\n    }}\n    {}{}\n}})", acc, body, i, i, pafter, acc));
+            let acc_expr = if accs.len() == 1 { accs[0].clone() } else { format!("({})", accs.join(", ")) };
+            let body = if guards.is_empty() { body } else { format!("if ({}) {{ {} }} else {{ {} }}", guards.join(") && ("), body, acc_expr) };
+            if accs.len() == 1 {
+                s.push_str(&format!("        {} = {};\n", accs[0], body));
+            } else {
+                s.push_str(&format!("        let qx_t{} = {};\n", k, body));
+                for (j, a) in accs.iter().enumerate() {
+                    s.push_str(&format!("        {} = qx_t{}.{};\n", a, k, j));
+                }
+            }
+            s.push_str(&format!("        {} = {} + 1;\n    }}\n    {}{}\n}})", i, i, pafter, acc_expr));
         }
         "collect" => {
             let b = pre.clone();
